@@ -77,3 +77,23 @@ Proof.
   - rewrite <- IH. lia.
   - split; [lia|discriminate].
 Qed.
+
+Lemma existsb_false_forall {A} (p : A -> bool) l : existsb p l = false -> forall x, In x l -> p x = false.
+Proof.
+  induction l as [|y l IH]; simpl; intros H x Hx; [contradiction|].
+  apply orb_false_iff in H as [Hy Hl]. destruct Hx as [->|Hx]; [exact Hy | apply IH; assumption].
+Qed.
+
+Lemma firstn_app_exact_l {A} (b r : list A) : firstn (length b) (b ++ r) = b.
+Proof. rewrite firstn_app, Nat.sub_diag, firstn_all. simpl. apply app_nil_r. Qed.
+
+Lemma skipn_app_exact_l {A} (b r : list A) : skipn (length b) (b ++ r) = r.
+Proof. rewrite skipn_app, Nat.sub_diag, skipn_all. reflexivity. Qed.
+
+(* firstn 16 (skipn 4 (c :: i :: len2 ++ auth ++ rest)) = auth, for 2-byte len2 and 16-byte auth *)
+Lemma firstn_app_exact_l0 (c i : N) (len2 auth rest : bytes) : length len2 = 2%nat -> length auth = 16%nat ->
+  firstn 16 (skipn 4 (c :: i :: len2 ++ auth ++ rest)) = auth.
+Proof.
+  intros H2 H16. destruct len2 as [|a [|b [|]]]; simpl in H2; try lia. cbn [skipn app].
+  rewrite <- H16. apply firstn_app_exact_l.
+Qed.
